@@ -38,6 +38,7 @@ def chunks(tier, seed):
     for k in range(0, n, 10):
         out.append(('case_random', [dict(seed=seed * 389 + k + i, steps=10 + (k + i) % 30) for i in range(10)]))
     out.append(('case_gap', [dict(level=l) for l in (2, 3, 7)]))
+    out.append(('case_constructor_orders', [dict(seed=seed + k) for k in range(40 if tier == 'quick' else 600)]))
     return out
 
 
@@ -178,3 +179,41 @@ def case_gap(c, res):
     if sorted(b.vars.values()) != list(range(n)):
         raise Viol('add_var#gap:level>len(vars)', f'add_var("z", {c["level"]}) accepted with 1 variable declared: vars={b.vars}')
     return 'ok'
+
+
+def case_constructor_orders(c, res):
+    """`BDD(levels)` and `copy_vars` with the mapping listed in an order different from the level order: the result
+    must be a valid order with the terminal below every variable, and functions built afterwards are correct"""
+    import dd._copy as C
+    import dd.autoref as A
+    import dd.bdd as B
+    rnd = random.Random(c['seed'])
+    n = rnd.randint(2, 6)
+    names = UNIVERSE[:n]
+    lv = list(range(n))
+    rnd.shuffle(lv)
+    items = list(zip(names, lv))
+    rnd.shuffle(items)                       # insertion order independent of the levels
+    how = rnd.randrange(3)
+    if how == 0:
+        b = B.BDD(dict(items))
+    elif how == 1:
+        b = A.BDD(dict(items))._bdd
+    else:
+        src = B.BDD()
+        src.declare(*names)
+        u0 = build(src, rnd.getrandbits(1 << n), names)
+        src.incref(u0)
+        B.reorder(src, dict(items))
+        b = B.BDD()
+        C.copy_vars(src, b)
+        src.decref(u0)
+    require(dict(b.vars) == dict(items), 'declare-with-levels#post:levels-as-given', lambda: f'{items} -> {b.vars}')
+    wf(b)
+    t = rnd.getrandbits(1 << n)
+    u = b.add_expr(' \\/ '.join('(' + ' /\\ '.join((nm if (k >> j) & 1 else '~ ' + nm) for j, nm in enumerate(names)) + ')'
+                                for k in range(1 << n) if (t >> k) & 1) or 'FALSE')
+    require(den(b, u, names) == t, 'declare-with-levels#post:functions-correct-afterwards', lambda: f'{items}: tt={t}')
+    wf(b)
+    res.count('steps')
+    return (tuple(items), how)
